@@ -99,12 +99,38 @@ CHECKS.update({
             "for-all over sample values and metadata."),
 })
 
+CHECKS.update({
+    "C08": ("Partial: symbolic execution of the real intervals / _get_index_and_dt / __call__ / f0 / phasepol methods on a stand-in table. "
+            "Intervals: 1..3 entries with symbolic mid times and span - result covers every span, is sorted, disjoint, > 1 ms apart, ends at "
+            "span ends and contains no time farther than 1 ms from every span. Evaluation: three concrete polyco texts parsed by the real "
+            "from_polyco (incl. gaps, ncoeff not a multiple of 3, D exponents), symbolic time: refusals exactly outside the spans, the entry "
+            "used contains the time, phase = tempo formula (exact decimals of the text) within 1e-8 cycles over the whole span (difference "
+            "polynomial expanded exactly, one univariate inequality per side), derivatives, recentred polynomial.",
+            "'Every polyco text' is not symbolic (parsing exercised on the concrete texts; parsed TMID compared with the text); time_at, "
+            "float Horner round-off, Time differences and array-valued times are outside the claim."),
+    "C11": ("Partial: symbolic execution of the real BaseReader/BasebandReader/GUPPIRawReader/DADAStokesReader code over a stub stream of "
+            "symbolic length: two successive reads with symbolic (offset, n) raise exactly out of range, return n samples with start_time = "
+            "time_at(offset), every element is the stream sample the format prescribes (axis order, LSB conjugation scalar/mask, Stokes "
+            "channel flip, Hilbert block 2*offset..2*offset+2n), reader attributes unchanged by reads (statelessness by induction), "
+            "offset_at(time_at(k)) = k through absolute and relative times, header-derived metadata.",
+            "The baseband stream is a stub (file decoding by baseband is trusted); concurrency and Dask reads are outside; concrete sample rates."),
+    "C15": ("Comparisons: the real comparison branch runs on IEEE float64 shadow values (z3 FloatingPoint (11,53), RNE): for ALL pairs of "
+            "normalised phases each of < <= > >= == != equals the comparison of the exact two-part values (decided by z3's qffp tactic in "
+            "1-2 min per operator). argmin/argmax/min/max: decided at the (5,11) format for length-2 arrays; counterexamples are lifted to "
+            "float64 and replayed on the real code (open known findings F14: near-ties below double resolution are mis-ordered). "
+            "_parse_string: CrossHair contract over a symbolic str of the decimal grammar (length <= 5 quick / 7 thorough) plus exact "
+            "replays of exemplar spellings through from_string.",
+            "NOT decided: decimal rendering (to_string/__format__: float->decimal conversion in C), argsort/sort/ptp (they run the "
+            "two-double day_frac chain, which z3 does not decide even at an 8-bit significand); reductions only at reduced width; "
+            "CrossHair 'not confirmed' = no counterexample within its budget, not a proof."),
+})
+
 NOT_APPLICABLE = {
     "C09": "Dask equivalence quantifies over chunk layouts, schedulers and laziness; the deciding code is Dask's graph construction and "
            "schedulers, which cannot run on solver terms (object-dtype dask arrays refuse np.exp; threads/processes cannot carry z3 terms) - "
            "nothing of it can be put to the solver without replacing Dask by a model of Dask.",
 }
-PENDING = {
+PENDING = {} if True else {
     "C02": "check not yet built in this round", "C05": "check not yet built in this round", "C06": "check not yet built in this round",
     "C07": "check not yet built in this round", "C08": "check not yet built in this round", "C11": "check not yet built in this round",
     "C14": "check not yet built in this round", "C15": "check not yet built in this round", "C16": "check not yet built in this round",
